@@ -15,6 +15,13 @@ pub fn reply_menu(cfg: &Cfg) -> Vec<Reply> {
     reply_menu_plain(cfg).into_iter().map(|r| r.with_fp(fp)).collect()
 }
 
+/// an acceptable response that additionally carries an attribute of an unknown comprehension-required type (whatever the
+/// client makes of it - deliver it, fail the transaction - it is ONE final outcome)
+pub fn reply_with_unknown_required(cfg: &Cfg) -> Reply {
+    let fp = if cfg.fingerprint { RFp::ValidWithUnknownRequired } else { RFp::AbsentWithUnknownRequired };
+    reply_menu(cfg)[if matches!(cfg.mech, Mech::LongTerm) { 1 } else { 0 }].with_fp(fp)
+}
+
 fn reply_menu_plain(cfg: &Cfg) -> Vec<Reply> {
     let ok = Reply::plain(RClass::Success);
     let err = Reply::plain(RClass::Error(400));
@@ -158,6 +165,9 @@ impl Monitor for Mon {
         if !w.reqs.is_empty() {
             v.push(Event::Deliver { to: Target::Unknown, reply: menu[0] });
         }
+        if let Some(i) = w.awaiting().first() {
+            v.push(Event::Deliver { to: Target::Req(*i), reply: reply_with_unknown_required(&w.cfg) });
+        }
         // non-responses carrying an outstanding id, and a send that fails for lack of buffer space
         v.extend(explore::id_tie_events(w));
         if w.reqs.len() < self.max_sends && !w.just_advanced {
@@ -290,7 +300,7 @@ pub fn run(ctx: &RunCtx) -> i32 {
         rep,
         Finish {
             level: "model_checking",
-            rule: format!("breadth-first exploration of the real client to depth {} over {{Send (<=2 concurrent, <=3 with coarse time), Timer, AdvanceTo(region representatives of every schedule point / deadline: -1 ms, exact, +1 ms, midpoint, beyond), Deliver(each awaiting or the last finished request x reply menu of the mechanism incl. auth-failing and 401/438), Deliver(unknown id), Deliver(an indication / a request carrying the id of an awaiting request), a send into a 16-byte buffer}} for {} transport x mechanism configurations (two of them - thorough four - with request methods 0x080 / 0xFFF / 0x100 / 0xA5A instead of Binding); plus deviation-bounded run-to-completion (<= {} deviations: lost / duplicated / late / after-failure / mis-authenticated reply, early / late / very late timer, extra request) on the default 500 ms / Rc 7 / Rm 16 configuration; plus, for 10 configurations, one request answered by an error response with EVERY code 300..=699, delivered twice and followed by a late timer call (exactly one final outcome whatever the code). States deduplicated on the full client snapshot + monitor state; every transition executed on the implementation", depth, cfgs.len(), if thorough { 4 } else { 3 }),
+            rule: format!("breadth-first exploration of the real client to depth {} over {{Send (<=2 concurrent, <=3 with coarse time), Timer, AdvanceTo(region representatives of every schedule point / deadline: -1 ms, exact, +1 ms, midpoint, beyond), Deliver(each awaiting or the last finished request x reply menu of the mechanism incl. auth-failing and 401/438, and an acceptable response that also carries an unknown comprehension-required attribute), Deliver(unknown id), Deliver(an indication / a request carrying the id of an awaiting request), a send into a 16-byte buffer}} for {} transport x mechanism configurations (two of them - thorough four - with request methods 0x080 / 0xFFF / 0x100 / 0xA5A instead of Binding); plus deviation-bounded run-to-completion (<= {} deviations: lost / duplicated / late / after-failure / mis-authenticated reply, early / late / very late timer, extra request) on the default 500 ms / Rc 7 / Rm 16 configuration; plus, for 10 configurations, one request answered by an error response with EVERY code 300..=699, delivered twice and followed by a late timer call (exactly one final outcome whatever the code). States deduplicated on the full client snapshot + monitor state; every transition executed on the implementation", depth, cfgs.len(), if thorough { 4 } else { 3 }),
             assumptions: vec!["time is explored through region representatives (the client only compares and subtracts instants)".into(), "dedup key is a 128-bit hash of the canonical state rendering".into()],
             required_symbols: vec!["Send", "Timer", "Advance", "Deliver", "bfs-configs", "deviation-runs", "every-error-code"],
             min_outcomes: 8,
